@@ -16,7 +16,7 @@ import re
 import itertools
 
 from .loader import AnalysisError, dotted
-from .interp import Interp, Scenario, Sym, Const, render, alpha
+from .interp import Interp, Scenario, Sym, Const, ListV, render, alpha
 from .cfg import CFG, calls_in
 from . import guards
 
@@ -191,6 +191,8 @@ class FlagFn(object):
                 return not v
             if isinstance(n.op, ast.Invert) and isinstance(v, int) and not isinstance(v, bool):
                 return ~v
+            if isinstance(n.op, ast.USub) and isinstance(v, int) and not isinstance(v, bool):
+                return -int(v)
             raise _Unknown(ast.unparse(n))
         if isinstance(n, ast.BinOp):
             return self.binop(n.op, self.ev(n.left, env, f), self.ev(n.right, env, f))
@@ -701,12 +703,19 @@ def loop_pair(fi, s):
     values when the pair list was statically known."""
     loop = verdict_loop(fi)
     t = loop.target
-    if not (isinstance(t, (ast.Tuple, ast.List)) and len(t.elts) == 2 and all(isinstance(e, ast.Name) for e in t.elts)):
-        raise AnalysisError('%s: the verification loop does not bind a (signature, subject) pair' % fi.qualname)
-    a, b = (s.env.get(e.id) for e in t.elts)
-    if a is None or b is None:
-        return None
-    return render(a), render(b)
+    if isinstance(t, (ast.Tuple, ast.List)) and len(t.elts) == 2 and all(isinstance(e, ast.Name) for e in t.elts):
+        a, b = (s.env.get(e.id) for e in t.elts)
+        if a is None or b is None:
+            return None
+        return render(a), render(b)
+    if isinstance(t, ast.Name):
+        v = s.env.get(t.id)
+        if v is None:
+            return None
+        if isinstance(v, ListV) and len(v.elems) == 2:
+            return render(v.elems[0]), render(v.elems[1])
+        return '%s[0]' % render(v), '%s[1]' % render(v)
+    raise AnalysisError('%s: the verification loop does not bind a (signature, subject) pair' % fi.qualname)
 
 
 def bit_tree(text):
